@@ -734,7 +734,8 @@ def deserialize_problem_as_url(
     m = _DESERIALIZE_URL_REG.match(url)
     if allow_failure and m is None:
         return None
-    assert m is not None
+    if m is None:
+        raise ValueError("not a puzzle URL")
 
     puzzle = m[1]
     width = int(m[2])
